@@ -71,6 +71,66 @@ def run(chk):
         chk.ok('C09-thread', 'stack_size', sample='exec_new_thread: Builder::stack_size(STACK_SIZE)')
     else:
         chk.bad('C09-thread', 'spawn::exec_new_thread', 'no-stack_size', 'exec_new_thread no longer sets the enlarged stack size', 'crates/erg_common/spawn.rs', sp['line'])
+    eof_rule(chk, fx)
     chk.undecide('panic-freedom of the enum_unwrap!/unwrap sites of the parser on arbitrary token sequences needs invariants of the parse stack: not judged')
     return ('Strongly connected components of the resolved call graph of erg_parser (calls exported from typed HIR and MIR) reachable from Parser::parse, searched for depth guards; '
             'who-may-call rule for the enlarged-stack thread. Termination and panic-freedom on arbitrary token sequences are not decided.'), {}
+
+
+def eof_rule(chk, fx):
+    """EOF can never be consumed, so a token loop that may go round again from its catch-all arm needs an explicit EOF exit"""
+    from sa.kinds import vspec as VS
+    chk.rule('C09-eof', 'termination on truncated input: in every statement-level loop of the parser (`loop { match self.peek..() { .. _ => try_reduce_chunk + error recovery } }`) whose catch-all arm can complete without leaving the loop, '
+                        'there is an arm for EOF that leaves it (error recovery skips tokens but cannot skip EOF, so without that arm the loop spins forever at end of input)')
+    n = 0
+    for f in fx.fns(PARSE):
+        where = T.norm(f['path'])
+        for lp in T.walk(f['body']):
+            if lp.get('k') != 'Loop' or lp.get('src') != 'Loop':
+                continue
+            ms = [m for m in T.stmts_of(lp['b']) if T.unsemi(m).get('k') == 'Match' and 'peek' in T.show(T.unsemi(m)['x'])]
+            if len(ms) != 1:
+                continue
+            m = T.unsemi(ms[0])
+            # only loops whose whole body is that match (statement loops)
+            if len(T.stmts_of(lp['b'])) != 1:
+                continue
+            default = None
+            eof_arm = None
+            for arm in m['arms']:
+                pv = T.pat_variants(arm['pat'])
+                shown = T.show(arm['pat'])
+                if 'EOF' in shown and eof_arm is None:
+                    eof_arm = arm
+                if (pv == {'_'} or shown in ('Option::Some(_)', '_')) and default is None and 'g' not in arm:
+                    default = arm
+            if default is None:
+                continue
+            # statement-level loops only: the catch-all arm parses a chunk and recovers from its errors (next_expr skips tokens up to, but never past, EOF)
+            recovering = False
+            for mm in T.walk(default['b']):
+                if mm.get('k') == 'Match' and mm.get('src') == 'Normal' and any((T.cq(c) or '').endswith('Parser::try_reduce_chunk') for c in T.calls(mm['x'])):
+                    for a2 in mm['arms']:
+                        if any(v.endswith('::Err') for v in T.pat_variants(a2['pat'])) and VS.MustPass(lambda x: False).ex(a2['b'], False) is not None:
+                            recovering = True
+                if mm.get('k') == 'If':
+                    lcs = [x for x in T.walk(mm['c']) if x.get('k') == 'LetCond' and any((T.cq(c) or '').endswith('Parser::try_reduce_chunk') for c in T.calls(x['init']))]
+                    if lcs and any(v.endswith('::Ok') for v in T.pat_variants(lcs[0]['pat'])):
+                        if 'e' not in mm or VS.MustPass(lambda x: False).ex(mm['e'], False) is not None:
+                            recovering = True
+            if not recovering:
+                continue
+            ip = VS.MustPass(lambda x: False)
+            cont = ip.ex(default['b'], False)
+            n += 1
+            if cont is None:
+                chk.ok('C09-eof', (where, lp['l'], 'default leaves the loop'))
+                continue
+            if eof_arm is not None:
+                ip2 = VS.MustPass(lambda x: False)
+                if ip2.ex(eof_arm['b'], False) is None:
+                    chk.ok('C09-eof', (where, lp['l']), sample='%s: loop with a continuing catch-all arm has `%s => leave`' % (where, T.show(eof_arm['pat'])))
+                    continue
+            chk.bad('C09-eof', where, 'loop-without-EOF-exit', '%s loops over the token stream with a catch-all arm that can go round again, and has no arm that leaves the loop at EOF: '
+                    'a syntax error at the very end of a file makes the parser spin forever' % where, PARSE, lp['l'])
+    chk.floor('statement loops with error recovery', n, 2)
